@@ -35,4 +35,4 @@ Deliverables in {out}/ :
   - patch.diff : output of `git -C {wt} diff` containing ONLY the fault (not the demonstration files)
   - demo/ : the demonstration files, plus run.sh -- a script that takes the path of a checkout as $1, copies/uses the demo there, and exits 0 if the property holds on that checkout and non-zero if it is violated (so: non-zero on your patched worktree, 0 on a clean one)
   - notes.md : what you changed, why the existing tests do not notice, exactly what is needed for the violation to manifest, and the commands you ran with their results (build, full test suite, demo with and without the change).
-Before finishing, verify all four points yourself by actually running the commands (with the change: build ok, tests all pass, demo fails; with `git stash` / without the change: demo passes), then restore your change in the worktree. Report briefly what you did.""")
+Before finishing, verify all four points yourself by actually running the commands (with the change: build ok, tests all pass, demo fails; without the change: demo passes), then restore your change in the worktree. To test without the change do NOT use `git stash` (the stash is shared with other worktrees that other people are using right now): save `git diff > {out}/patch.diff`, run `git checkout -- .`, test, then `git apply {out}/patch.diff`. Report briefly what you did.""")
